@@ -9,4 +9,4 @@ Separate Extraction
   BTreeModel.copy_tree BTreeModel.reset_key BTreeModel.remove_key BTreeModel.remove_if
   BTreeModel.merge_to BTreeModel.insert_range BTreeModel.remove_range BTreeModel.remove_key_multi BTreeModel.shape_of BTreeModel.traverse_fwd BTreeModel.traverse_bwd BTreeModel.cnt
   NodeScript.ns_create NodeScript.ns_accept NodeScript.ns_remove NodeScript.ns_table NodeScript.ns_live NodeScript.ns_slot
-  NodeScript.ns_capacity NodeScript.ns_is_leaf NodeScript.ns_hand_count NodeScript.ns_mpi NodeScript.ns_cnt NodeScript.ns_children.
+  NodeScript.ns_capacity NodeScript.ns_is_leaf NodeScript.ns_mpi NodeScript.ns_cnt NodeScript.ns_children.
